@@ -170,8 +170,29 @@ func New(fns []*ssa.Function) *Analysis {
 					sites[callee] = append(sites[callee], site{in, false})
 				}
 				// function literals passed as arguments run synchronously inside the call
-				for _, arg := range x.Common().Args {
+				for ai, arg := range x.Common().Args {
 					if mc, ok := arg.(*ssa.MakeClosure); ok {
+						if m := boundMethod(mc); m != nil && a.inSet[m] {
+							// a method value (x.m) handed to a function of the set: the method runs where that function
+							// calls the parameter, with what is held there (started with go: nothing); handed to anything
+							// else, it is treated like a literal
+							if ins, ok := paramCalls(calleeOf(x.Common()), ai, a.inSet); ok {
+								for _, pc := range ins {
+									_, isGo := pc.(*ssa.Go)
+									sites[m] = append(sites[m], site{pc, isGo})
+									if isGo {
+										a.Async[m] = true
+									}
+								}
+							} else {
+								async := strings.HasPrefix(ssau.CalleeName(x), "time.AfterFunc")
+								sites[m] = append(sites[m], site{in, async})
+								if async {
+									a.Async[m] = true
+								}
+							}
+							continue
+						}
 						if fn := mc.Fn.(*ssa.Function); a.inSet[fn] {
 							async := strings.HasPrefix(ssau.CalleeName(x), "time.AfterFunc")
 							sites[fn] = append(sites[fn], site{in, async})
@@ -247,6 +268,51 @@ func New(fns []*ssa.Function) *Analysis {
 		a.flow(f)
 	}
 	return a
+}
+
+// boundMethod: the method a bound-method closure (the value of the expression x.m) calls; nil for anything else.
+func boundMethod(mc *ssa.MakeClosure) *ssa.Function {
+	w, ok := mc.Fn.(*ssa.Function)
+	if !ok || w.Synthetic == "" || !strings.HasSuffix(w.Name(), "$bound") || len(mc.Bindings) != 1 {
+		return nil
+	}
+	var m *ssa.Function
+	ssau.Instrs(w, func(in ssa.Instruction) {
+		if ci, ok := in.(ssa.CallInstruction); ok {
+			if sc := ci.Common().StaticCallee(); sc != nil && sc.Name()+"$bound" == w.Name() {
+				m = sc
+			}
+		}
+	})
+	return m
+}
+
+// paramCalls: the instructions of g that call its parameter number i (argument position, receiver included); ok is
+// false when g is not analysed here or does anything else with the parameter (stores it, hands it on).
+func paramCalls(g *ssa.Function, i int, inSet map[*ssa.Function]bool) ([]ssa.Instruction, bool) {
+	if g == nil || !inSet[g] || g.Blocks == nil || i >= len(g.Params) {
+		return nil, false
+	}
+	p := g.Params[i]
+	var out []ssa.Instruction
+	for _, r := range ssau.Referrers(p) {
+		switch u := r.(type) {
+		case *ssa.DebugRef:
+		case ssa.CallInstruction:
+			if u.Common().Value != ssa.Value(p) {
+				return nil, false
+			}
+			for _, a := range u.Common().Args {
+				if a == ssa.Value(p) {
+					return nil, false
+				}
+			}
+			out = append(out, u)
+		default:
+			return nil, false
+		}
+	}
+	return out, len(out) > 0
 }
 
 func calleeOf(c *ssa.CallCommon) *ssa.Function {
